@@ -170,3 +170,33 @@ pub fn vsubtrees_of_dirs(nodes: &Vec<MNode>) -> (r: Vec<TreeId>)
 pub fn vmerge_subtrees(trees: &Vec<TreeId>, summary: &mut SummaryM, Ghost(group): Ghost<Seq<MNode>>) -> RusticResult<TreeId>
     requires trees@ == dir_subtrees(group),
 { unimplemented!() }
+
+// ---- copy: which blobs of a tree are collected for copying ----
+#[derive(Clone, Copy, PartialEq, Eq, Structural)]
+pub struct DataIdC(pub u64);
+#[derive(Clone, Copy, PartialEq, Eq, Structural)]
+pub struct TreeIdC(pub u64);
+pub enum NodeTypeC { File, Dir, Symlink, Dev, Chardev, Fifo, Socket }
+pub struct NodeC { pub node_type: NodeTypeC, pub content: Option<Vec<DataIdC>>, pub subtree: Option<TreeIdC> }
+pub struct TreeC { pub nodes: Vec<NodeC> }
+// the destination's index (ids are enough): what it already has
+pub struct VDestIndex { pub _opaque: u64 }
+impl VDestIndex {
+    pub uninterp spec fn data(&self) -> Set<DataIdC>;
+    pub uninterp spec fn trees(&self) -> Set<TreeIdC>;
+}
+pub struct VIdSet<K> { pub s: Ghost<Set<K>> }
+pub open spec fn content_c(c: Option<Vec<DataIdC>>) -> Seq<DataIdC> { match c { Some(v) => v@, None => Seq::empty() } }
+// data_ids.extend(node.content.into_iter().flatten().filter(filter_data)) with filter_data = |id| !index_dest.has_data(id)
+#[verifier::external_body]
+pub fn vextend_missing_data(set: &mut VIdSet<DataIdC>, content: &Option<Vec<DataIdC>>, dest: &VDestIndex)
+    ensures forall|k: DataIdC| #![trigger final(set).s@.contains(k)] final(set).s@.contains(k) <==> old(set).s@.contains(k)
+        || (!dest.data().contains(k) && exists|i: int| 0 <= i < content_c(*content).len() && #[trigger] content_c(*content)[i] == k),
+        forall|k: DataIdC| #![trigger old(set).s@.contains(k)] old(set).s@.contains(k) ==> final(set).s@.contains(k),
+{ unimplemented!() }
+// tree_ids.extend(node.subtree.into_iter().filter(filter_tree)) with filter_tree = |id| !index_dest.has_tree(id)
+#[verifier::external_body]
+pub fn vextend_missing_tree(set: &mut VIdSet<TreeIdC>, subtree: &Option<TreeIdC>, dest: &VDestIndex)
+    ensures forall|k: TreeIdC| #![trigger final(set).s@.contains(k)] final(set).s@.contains(k) <==> old(set).s@.contains(k) || (!dest.trees().contains(k) && *subtree == Some(k)),
+        forall|k: TreeIdC| #![trigger old(set).s@.contains(k)] old(set).s@.contains(k) ==> final(set).s@.contains(k),
+{ unimplemented!() }
